@@ -102,13 +102,19 @@ Print Assumptions C13_reload_before_repair_spacing_refuted.
 
 (* ---- the client-go queue with one worker, zero scheduling latency, callbacks of at most
         D < delta (Model/Queue.v). `tr` is any history accepted by the model: all
-        interleavings of notifications, timers, hand-overs and callback returns; the log is
-        newest first. One kind of item: ---- *)
+        interleavings of requests, timers, hand-overs and callback returns; the log is
+        newest first. `Arrive i` is ANY request that goes through the limiter
+        (AddRateLimited): a watcher notification, the full sync asked by leaderChanged when
+        the leadership is acquired, the re-queue of a failed callback; the statements quantify
+        over all of them alike, and Corr_C13 ties each source of the real controller to it.
+        `Retry i d` is a direct AddAfter(i, d), which the controller uses only to retry after a
+        failure (ReloadRetry): `no_retry tr` excludes it from the spacing statements, as the
+        property documents; C13_queue_never_drops covers it. One kind of item: ---- *)
 
 Theorem C13_queue_runs_under_single_kind : forall delta wait D,
   0 < delta -> 0 <= wait -> 0 <= D -> D < delta ->
   forall i0 last0 t0 tr st,
-  arrives_only i0 tr ->
+  arrives_only i0 tr -> no_retry tr ->
   qexec (reconciler_when delta wait) D (q_init last0 t0) tr = Some st ->
   (* every hand-over to the callback happens at the instant granted to an earlier notification *)
   (forall post i s pre, q_log st = post ++ ORun i s :: pre -> exists t, In (OArrive i t s) pre) /\
@@ -124,7 +130,7 @@ Print Assumptions C13_queue_runs_under_single_kind.
 Theorem C13_queue_served_once_grant_is_past : forall delta wait D,
   0 < delta -> 0 <= wait -> 0 <= D -> D < delta ->
   forall i0 last0 t0 tr st post i t g pre,
-  arrives_only i0 tr ->
+  arrives_only i0 tr -> no_retry tr ->
   qexec (reconciler_when delta wait) D (q_init last0 t0) tr = Some st ->
   q_log st = post ++ OArrive i t g :: pre -> g < q_now st ->
   exists s, In (ORun i s) post /\ t <= s <= g.
@@ -134,7 +140,7 @@ Print Assumptions C13_queue_served_once_grant_is_past.
 (* the reload queue carries one item (nil): the same three statements *)
 Theorem C13_reload_queue_runs : forall interval D, 0 < interval -> 0 <= D -> D < interval ->
   forall i0 last0 t0 tr st,
-  arrives_only i0 tr ->
+  arrives_only i0 tr -> no_retry tr ->
   qexec (reload_when interval) D (q_init last0 t0) tr = Some st ->
   (forall post i s pre, q_log st = post ++ ORun i s :: pre -> exists t, In (OArrive i t s) pre) /\
   (forall l3 i s2 l2 j s1 l1, q_log st = l3 ++ ORun i s2 :: l2 ++ ORun j s1 :: l1 -> s1 + interval <= s2) /\
